@@ -180,6 +180,10 @@ def run(pid, spec, tier):
         elif name == "bounded_scalar_roundtrip":
             import bounded_standin
             out.append(bounded_standin.scalar_roundtrip(pid))
+        elif name == "bounded_coercion_corpus":
+            import bounded_standin
+            import coercion_standin
+            out.append(coercion_standin.run(pid, bounded_standin.build_replay))
         elif name == "bounded_history_corpus":
             import bounded_standin
             out.append(bounded_standin.history_corpus(pid))
